@@ -115,6 +115,14 @@ def obligations(tier, seed):
                 params = [["w%d" % i, 0, rmax] for i in range(T)] + [["dt%d" % r, 0, 2] for r in range(rounds)] + [["r%d_%d" % (r, i), 0, rmax] for r in range(rounds) for i in range(T)]
                 obs.append({"name": "unit/T=%d/rounds=%d/edges=%s" % (T, rounds, ",".join("%d>%d" % e for e in es) or "-"), "harness": "unit",
                             "cube": {"spec": spec, "rounds": rounds}, "params": params, "timeout": 900 if thorough else 150, "engine": "zsym"})
+        if T in (3, 4):
+            # task names are not unique in pDESy (every unnamed task is "New Task"): the same networks with one name for all tasks
+            for es in [es for k, es in enumerate(profiles.all_edge_sets(T)) if T == 3 or k % (2 if thorough else 4) == 1]:
+                spec = {"tasks": [{"w": "$w%d" % i, "name": "New Task"} for i in range(T)], "edges": [[i, j, 0] for (i, j) in es], "teams": []}
+                rmax = 2
+                params = [["w%d" % i, 0, rmax] for i in range(T)] + [["dt0", 0, 2]] + [["r0_%d" % i, 0, rmax] for i in range(T)]
+                obs.append({"name": "unit/same-name/T=%d/rounds=1/edges=%s" % (T, ",".join("%d>%d" % e for e in es) or "-"), "harness": "unit",
+                            "cube": {"spec": spec, "rounds": 1}, "params": params, "timeout": 900 if thorough else 150, "engine": "zsym"})
         for es in two_rounds_4:
             # a slice of the 4-task networks with two update rounds and a narrower range (0..1)
             spec = {"tasks": [{"w": "$w%d" % i} for i in range(T)], "edges": [[i, j, 0] for (i, j) in es], "teams": []}
